@@ -606,6 +606,11 @@ func (r *replayer) replay(tapePath string, f interp.Failure) (bool, string) {
 		if strings.Contains(out, "VERIF-ASSERT-FAIL "+f.ID) {
 			return true, ""
 		}
+		// the native run did not get as far as the assertion because the process died (e.g. the
+		// run time's unrecoverable "unlock of unlocked mutex"): the counterexample is real, and worse
+		if strings.Contains(out, "fatal error:") || strings.Contains(out, "VERIF-PANIC") || strings.Contains(out, "\npanic:") {
+			return true, ""
+		}
 		return false, "assertion held natively"
 	case "crash":
 		if strings.Contains(out, "VERIF-PANIC") || strings.Contains(out, "panic:") || strings.Contains(out, "fatal error:") {
